@@ -324,7 +324,7 @@ def check_parse_curie_flow(cx: Cx, ob: Ob) -> None:
         ob.undecide("parse_curie has no success return")
 
 
-def check_expand_reference(cx: Cx, ob: Ob) -> None:
+def check_expand_reference(cx: Cx, ob: Ob, alnum_identifiers: bool = False) -> None:
     fn = cx.fn(f"{CONV}.expand_reference", ob.id)
     s = cx.summary(fn, ob.id)
     me = ("param", fn.self_name)
@@ -346,7 +346,28 @@ def check_expand_reference(cx: Cx, ob: Ob) -> None:
             continue
         U, I = parts
         ci = component(I)
-        if ci is None or ci[0] != ref or ci[1] != 1:
+        if (ci is None or ci[0] != ref or ci[1] != 1) and alnum_identifiers and any(component(x) == (ref, 1) for x in subterms(I)) and not any(component(x) == (ref, 0) for x in subterms(I)):
+            # a transformation of the identifier alone: the caller's property speaks of alphanumeric identifiers
+            q_ = [x for x in subterms(I) if op(x) == "call" and op(x[1]) == "ext" and x[1][1] in ("urllib.parse.quote", "urllib.parse.quote_plus", "urllib.parse.quote_from_bytes")]
+            if q_:
+                # known semantics: quote() percent-encodes EVERY non-ASCII character whatever `safe` says, and
+                # str.isalnum() is true for non-ASCII letters and digits
+                ob.violate(fn.qualname, where(fn, line), f"expansion appends `{show(I)[:60]}`: urllib.parse.quote percent-encodes every non-ASCII character (whatever `safe` lists), and alphanumeric identifiers may be non-ASCII (str.isalnum() accepts them) - such a URI no longer expands back to itself", witness="'http://ja.dbpedia.org/resource/東京' compresses to ns:東京 and expands to .../%E6%9D%B1%E4%BA%AC", detail="identifier-flow:quote")
+                continue
+            tr_ = [x for x in subterms(I) if op(x) == "call" and op(x[1]) == "attr" and x[1][2] == "translate" and len(x[2]) == 1 and op(x[2][0]) == "gconst"]
+            if tr_:
+                import ast as _ast
+
+                mod_ = cx.model.modules.get(tr_[0][2][0][1])
+                node_ = mod_.constants.get(tr_[0][2][0][2]) if mod_ is not None else None
+                chars = None
+                if isinstance(node_, _ast.DictComp) and len(node_.generators) == 1 and isinstance(node_.generators[0].iter, _ast.Constant) and isinstance(node_.generators[0].iter.value, str) and not node_.generators[0].ifs:
+                    chars = node_.generators[0].iter.value
+                if chars is not None and not any(ch.isalnum() for ch in chars):
+                    ob.site(f"{where(fn, line)} {fn.qualname}", f"identifier put through str.translate over {chars!r}: none of these characters is alphanumeric")
+                    continue
+            ob.undecide(f"expansion appends `{show(I)[:60]}`, a transformed identifier: whether alphanumeric identifiers come through unchanged is not decided")
+        elif ci is None or ci[0] != ref or ci[1] != 1:
             ob.violate(fn.qualname, where(fn, line), f"expansion appends `{show(I)[:60]}`, not the untouched identifier of the reference", detail="identifier-flow")
         key = None
         if op(U) == "call" and callee_name(U) == "get" and op(U[1]) == "attr" and U[1][1] == ("attr", me, "prefix_map") and len(U[2]) >= 1:
@@ -782,3 +803,10 @@ def x16(cx: Cx, ob: Ob) -> None:
     check_match_record(cx, ob)
     check_merge(cx, ob)
     add_record_guards(cx, ob)
+
+
+@obligation("C02-X19", "records hold the names they were given (shared with C04-D3): the Record validators reject only a canonical value among the synonyms of its own side and otherwise keep every entry of the synonym lists - a validator that filters the lists (blank entries, repeated entries) removes names from every record built anywhere, so they are in no lookup table", floor=3)
+def x19(cx: Cx, ob: Ob) -> None:
+    from .c04 import d3 as validators
+
+    validators(cx, ob)
